@@ -274,6 +274,63 @@ def left_nested_power(ctx, tmpdir):
             ctx.count("nested_power_ok")
 
 
+def reversible_attribute(ctx, tmpdir):
+    """reactions that carry reversible="true" (an attribute without effect on the rate equations: the kinetic law is the net
+    rate): the imported model has every reaction of the document, whichever way the reader's warnings are switched."""
+    import warnings
+    from bioscrape.types import Model
+    from bioscrape.simulator import ModelCSimInterface
+    doc = libsbml.SBMLDocument(3, 2)
+    m = doc.createModel(); m.setId("reversible_attribute")
+    c = m.createCompartment(); c.setId("cell"); c.setSize(1.0); c.setConstant(True); c.setSpatialDimensions(3)
+    x = {"A": 3.0, "B": 2.0, "E": 1.5, "P": 0.5}
+    for sname in x:
+        sp = m.createSpecies(); sp.setId(sname); sp.setCompartment("cell"); sp.setConstant(False); sp.setBoundaryCondition(False)
+        sp.setHasOnlySubstanceUnits(False); sp.setInitialAmount(1.0)
+    pv = {"kf": 0.4, "kr": 0.1, "kc": 0.7}
+    for g, v in pv.items():
+        par = m.createParameter(); par.setId(g); par.setConstant(True); par.setValue(v)
+    laws = []
+    for rid, rev, reac, prod, mods, law in (("r0", True, {"A": 1, "B": 2}, {"P": 1}, [], "kf*A*B^2 - kr*P"), ("r1", False, {"B": 1}, {}, ["E"], "kc*E*B"),
+                                            ("r2", True, {"P": 3}, {"A": 2}, [], "kr*P^3 - kf*A^2")):
+        r = m.createReaction(); r.setId(rid); r.setReversible(rev)
+        for sid, st in reac.items():
+            sr = r.createReactant(); sr.setSpecies(sid); sr.setStoichiometry(float(st)); sr.setConstant(True)
+        for sid, st in prod.items():
+            sr = r.createProduct(); sr.setSpecies(sid); sr.setStoichiometry(float(st)); sr.setConstant(True)
+        for sid in mods:
+            mr = r.createModifier(); mr.setSpecies(sid)
+        ast = libsbml.parseL3Formula(law)
+        r.createKineticLaw().setMath(ast)
+        laws.append((reac, prod, ast))
+    path = os.path.join(tmpdir, "reversible.xml")
+    libsbml.writeSBMLToFile(doc, path)
+    want = {s_: 0.0 for s_ in x}
+    for reac, prod, ast in laws:
+        v = sbml_eval.ast_eval(ast, dict(pv, **x))
+        for sid, st in reac.items():
+            want[sid] -= st * v
+        for sid, st in prod.items():
+            want[sid] += st * v
+    for how, kw in (("default", {}), ("sbml_warnings=True", {"sbml_warnings": True}), ("sbml_warnings=False", {"sbml_warnings": False})):
+        case = {"scenario": "reactions flagged reversible", "reader": how}
+        ctx.begin_case(case)
+        with warnings.catch_warnings():
+            warnings.simplefilter("ignore")
+            M = Model(sbml_filename=path, **kw)
+        sl = M.get_species_list()
+        I = ModelCSimInterface(M)
+        I.py_prep_deterministic_simulation()
+        dx = np.zeros(len(sl))
+        I.py_calculate_deterministic_derivative(np.array([x[s_] for s_ in sl]), dx, 0.0)
+        ctx.evaluated()
+        got = {s_: float(dx[i]) for i, s_ in enumerate(sl)}
+        if any(relerr(got.get(s_, float("nan")), want[s_]) > 1e-9 and abs(got.get(s_, float("nan")) - want[s_]) > 1e-12 for s_ in x) or len(M.get_reactions() if hasattr(M, "get_reactions") else laws) != len(laws):
+            ctx.violation("rate-equation/reversible-attribute", "read with %s: the imported model's rate equations %s are not the document's %s" % (how, got, want), dict(case, got=got, want=want))
+            return
+        ctx.count("reversible_attribute_readings")
+
+
 def power_text(ctx, tmpdir):
     """every shape of a tree of powers with up to three `^` (identifiers A, p, B, q from left to right) as the kinetic law of a
     document: libsbml's text for it against the Lean printer, the imported rate against the value of the tree the Lean reader
@@ -407,6 +464,7 @@ def run(ctx):
             one(ctx, ctx.rng, d)
         left_nested_power(ctx, d)
         power_text(ctx, d)
+        reversible_attribute(ctx, d)
         both_attributes(ctx, d)
 
 
